@@ -11,8 +11,8 @@ QUICK = [(["debounce", "throttle_first", "sample"], dict(DispOps={"debounce"})),
           dict(MaxLen=2, MaxT=3, SpecTs={0, 2}, Terms={"C", "E"}, Small={"sample_obs"}, MaxLenS=2, MaxTS=2, AuxLen=2, Hz=5))]
 
 THOROUGH = [(["debounce", "throttle_first", "sample"], dict(MaxLen=4, MaxT=6, Ds={0, 1, 2, 3}, Hz=10)),
-            (["throttle_with_mapper"], dict(MaxLen=3, MaxT=4, SpecTs={0, 1, 2}, Hz=7)),
-            (["sample_obs"], dict(MaxLen=3, MaxT=4, AuxLen=3, Hz=6)),
+            (["throttle_with_mapper"], dict(MaxLen=3, MaxT=3, SpecTs={0, 2}, Hz=6)),
+            (["sample_obs"], dict(MaxLen=3, MaxT=3, AuxLen=2, Hz=5)),
             (["debounce", "throttle_first", "sample", "throttle_with_mapper", "sample_obs"],
              dict(MaxLen=2, MaxT=3, SpecTs={0, 2}, AuxLen=1, Hz=6, DispLen=2,
                   DispOps={"debounce", "throttle_first", "sample", "throttle_with_mapper", "sample_obs"})),
